@@ -94,6 +94,15 @@ func streamAlg(c *ctx) {
 			v, ok := algValue(c, ha.alg, rep)
 			isInt = ok
 			prot = cose.Headers{iana.HeaderParameterAlg: v}
+			if c.r.intn(3) == 0 {
+				// the same header filled through the exported Set helper, the label held in another Go integer type (as
+				// labels copied from a decoded map are)
+				viaSet := cose.Headers{}
+				lbl := pick(c.r, []any{int(1), int64(1), uint64(1), uint(1), int32(1), int8(1), uint16(1)})
+				if viaSet.Set(lbl, v) == nil {
+					prot = viaSet
+				}
+			}
 			if c.r.intn(4) == 0 {
 				prot[iana.HeaderParameterContentType] = 60
 			}
@@ -121,6 +130,11 @@ func streamAlg(c *ctx) {
 			}
 			unprotTerm = "(Some " + qMap(unprot) + ")"
 		}
+		// COSE_Mac / COSE_Encrypt: the recipient added before producing often names the very key (same kid)
+		recipUnprot := cose.Headers{}
+		if kid != nil && c.r.bool() {
+			recipUnprot[iana.HeaderParameterKid] = append([]byte{}, kid...)
+		}
 		// ---- produce
 		var err error
 		var afterP, afterU cose.Headers
@@ -137,7 +151,7 @@ func streamAlg(c *ctx) {
 				afterP, afterU = m.Protected, m.Unprotected
 			case "Mac":
 				m := &cose.MacMessage[[]byte]{Protected: prot, Unprotected: unprot, Payload: payload}
-				m.AddRecipient(&cose.Recipient{Protected: cose.Headers{}, Unprotected: cose.Headers{}})
+				m.AddRecipient(&cose.Recipient{Protected: cose.Headers{}, Unprotected: recipUnprot})
 				data, err = m.ComputeAndEncode(fakeMACer{k: k}, nil)
 				afterP, afterU = m.Protected, m.Unprotected
 			case "Encrypt0":
@@ -146,7 +160,7 @@ func streamAlg(c *ctx) {
 				afterP, afterU = m.Protected, m.Unprotected
 			case "Encrypt":
 				m := &cose.EncryptMessage[[]byte]{Protected: prot, Unprotected: unprot, Payload: payload}
-				m.AddRecipient(&cose.Recipient{Protected: cose.Headers{}, Unprotected: cose.Headers{}})
+				m.AddRecipient(&cose.Recipient{Protected: cose.Headers{}, Unprotected: recipUnprot})
 				data, err = m.EncryptAndEncode(fakeEncryptor{k: k, nsize: 12}, nil)
 				afterP, afterU = m.Protected, m.Unprotected
 			}
